@@ -229,13 +229,13 @@ def plan(tier):
     for expl in ('pfi', 'sage'):
         for dyn in (False, True):
             for alpha in (F(1, 4), 1, 0.001):
-                for d in (2, 3):
+                for d in (1, 2, 3):
                     for mode in ('exact', 'float'):
                         for st in ('Batch', 'Geometric') if tier == 'thorough' else ('Batch',):
                             cfg = dict(expl=expl, dynamic=dyn, alpha=alpha if mode == 'exact' or alpha == 0.001
                                        else float(alpha), n_inner=2 if d == 2 else 1, d=d, storage=st,
                                        imputer='joint', names='str', lbib=False,
-                                       model='scalar' if d == 2 else 'multi', loss='sq')
+                                       model='scalar' if d <= 2 else 'multi', loss='sq')
                             tasks.append(('B', (cfg, T, mode)))
     return tasks
 
